@@ -253,7 +253,10 @@ def htab_name_rule(rep, u):
              (b"G / H\r\nA: b\t:c", 0, "HTAB ':' inside a field value"),
              (b"G / H\r\nA: b\r\n\t:c", 0, "HTAB ':' on a continuation line"),
              (b"G / H\r\nA: b\r\n c\t:d", 0, "HTAB ':' later on a continuation line"),
-             (b"G / H\r\nA: b", 0, "plain block")]
+             (b"G / H\r\nA: b", 0, "plain block"),
+             (b"G / H\r\n A: b\r\nC: d", 1, "SP in front of the first field line (it would continue the request line and hide the field)"),
+             (b"G / H\r\n\tA: b", 1, "HTAB in front of the first field line"),
+             (b"G / H\r\nA: b\r\n c\r\nD: e", 0, "continuation line after a field")]
     for blk, want, what in cases:
         pe = r_stride.PE(u)
         pe.memory = {P + i: c for i, c in enumerate(blk)}
@@ -275,6 +278,33 @@ def htab_name_rule(rep, u):
                          "\"content-length\\t\"), so a second framing field goes through" % blk.decode("latin1"))
         else:
             rep.violated("R-CLASS", fn, inst, desc, "the scan returns %s for %r, a block with none of the listed patterns" % (got, blk.decode("latin1")))
+    return n
+
+
+def colon_in_line_rule(rep, u, fname="http_hdr_val_get_ex"):
+    """the ':' that ends a field name is searched inside that line: its search limit is derived from the line end (the CRLF
+    search), not from the end of the block - otherwise a line without ':' takes the next line's colon, the next field
+    (Host, Content-Length, Transfer-Encoding) disappears from the counts and rules 3-7 of the security check stay silent"""
+    fn = need(u, fname)
+    rep.functions.add(fname)
+    colon = [(pos, c) for pos, root, c, ps in fn.calls() if (c.get("fn") or "").startswith(("mem_chr", "memchr")) and any(const_val(a) == 0x3a for a in c["args"])]
+    if not colon:
+        raise driver.AnalysisBroken("%s: the ':' search not found" % fname)
+    crlf_locals = set()
+    for pos, root, x, ps in fn.nodes():
+        if x.get("k") == "bin" and x["op"] == "=" and core.is_ref(strip_casts(x["x"])) and strip_casts(x["x"]).get("dk") == "local":
+            r = strip_casts(x["y"])
+            if r.get("k") == "call" and (r.get("fn") or "").startswith("mem_find") and any(_str_of(a) == "\r\n" for a in r["args"]):
+                crlf_locals.add(strip_casts(x["x"])["id"])
+    n = 0
+    for pos, c in colon:
+        n += 1
+        lim = [a for a in c["args"][1:] if core.ref_ids(a) & crlf_locals]
+        ok = bool(lim)
+        desc = "%s: the field-name colon is searched up to the end of the line" % fname
+        (rep.proved if ok else rep.violated)("R-FOLD", fn, "name-colon-inside-line", desc, "limit %s" % key(lim[0])[:40] if ok else
+                                             "the search runs to the end of the block (%s): \"Host: a\\r\\nX\\r\\nHost: b\" has one visible Host (the name of the second is \"X\\r\\nHost\"), "
+                                             "http_req_sec_chk returns 0 for it and for the same trick with Content-Length / Transfer-Encoding" % ", ".join(key(a)[:20] for a in c["args"][1:3]), c.get("ln"))
     return n
 
 
@@ -743,7 +773,8 @@ def run(rep, tier):
     rep.floor("rule-table combinations", rules_section(rep, u, consts), 54)
     rep.floor("byte classes", byte_scan(rep, u), 1000)
     rep.floor("fold byte classes", fold_rule(rep, u), 256)
-    rep.floor("field-name/colon whitespace cases", htab_name_rule(rep, u), 8)
+    rep.floor("field-name/colon whitespace cases", htab_name_rule(rep, u), 11)
+    rep.floor("field-name colon searches", colon_in_line_rule(rep, u), 1)
     remove_fold_end_rule(rep, u)
     min_size_rule(rep, u)
     rep.floor("trim cases", trim_rule(rep, u), 6)
